@@ -76,7 +76,7 @@ macro_rules! tree_test {
             chk!($label, inp.clone(), "len()".to_string(), t.len(), n);
             // C19: the construction paths and Clone give equal values (plain trees) / identical answers (Huffman)
             if n <= 3000 {
-                let t2: $ty = s.iter().copied().collect();
+                let t2: $ty = s.iter().copied().filter(|_| true).collect();
                 let mut s3 = s.clone();
                 let t3 = <$ty>::new(&mut s3[..]);
                 if $has_max_rule {
@@ -191,6 +191,15 @@ fn qvector_test(rng: &mut StdRng) {
     let qv2: QVector = vals.iter().copied().collect();
     chk!("QVector", inp.clone(), "len()".to_string(), qv.len(), n);
     chk!("QVector", inp.clone(), "collect == push".to_string(), qv2 == qv, true);
+    // iterators whose size_hint is not exact (lower bound 0, huge upper bound)
+    let qv3: QVector = vals.iter().copied().filter(|_| true).collect();
+    chk!("QVector", inp.clone(), "collect through filter (size_hint lower bound 0) == push".to_string(), qv3 == qv, true);
+    let qv4: QVector = (0..(1u64 << 62)).take_while(|&x| (x as usize) < n).map(|x| vals[x as usize]).collect();
+    chk!("QVector", inp.clone(), "collect through take_while over 0..2^62 (size_hint upper bound 2^62) == push".to_string(), qv4 == qv, true);
+    let mut b5 = QVectorBuilder::new();
+    if n > 0 { b5.push(vals[0] as u8); }
+    b5.extend(vals.iter().copied().skip(1).filter(|_| true));
+    chk!("QVector", inp.clone(), "push + extend through filter == push".to_string(), b5.build() == qv, true);
     for _ in 0..40 {
         let i = if rng.gen_range(0..8) == 0 { usize::MAX - rng.gen_range(0..3) } else if rng.gen_range(0..8) == 0 { 1usize << rng.gen_range(40..64) } else if n == 0 { rng.gen_range(0..3) } else { rng.gen_range(0..n + 2) };
         chk!("QVector", inp.clone(), format!("get({})", i), qv.get(i), vals.get(i).map(|&v| (v & 3) as u8));
@@ -264,6 +273,8 @@ fn bitvector_test(rng: &mut StdRng) {
         chk!("BitVector", format!("len {} ones at {:?}...", m, &pos[..pos.len().min(5)]), "from positions == from bools".to_string(), ai == bi, true);
         chk!("BitVector", format!("len {}", m), "clone == self, into/from round trip".to_string(), (ai.clone() == ai, BitVector::from(BitVectorMut::from(ai.clone())) == ai), (true, true));
     }
+    let filtered: BitVectorMut = model.iter().copied().filter(|_| true).collect();
+    chk!("BitVectorMut", hist.clone(), "collect through filter == the vector".to_string(), filtered == bv, true);
     let rebuilt: BitVectorMut = model.iter().copied().collect();
     chk!("BitVectorMut", hist.clone(), "== vector collected from the same bools".to_string(), rebuilt == bv, true);
     let imm: BitVector = bv.clone().into();
